@@ -3,6 +3,7 @@ package main
 import (
 	"fmt"
 	"go/types"
+	"sort"
 	"strings"
 
 	"golang.org/x/tools/go/ssa"
@@ -287,9 +288,64 @@ func (e *Engine) appendBuiltin(s *State, f *Frame, x *ssa.Call, args []Value, ar
 	f.Locals[x] = SliceV{Obj: id, Off: I64(0), Len: I64(n), Cap: I64(ncap)}
 }
 
-// appendSym appends a symbolic-length byte slice: case-split on its length (bounded).
+// appendSym appends a symbolic-length slice: case-split on its (few) feasible lengths.
 func (e *Engine) appendSym(s *State, f *Frame, x *ssa.Call, a, b SliceV, et types.Type) {
-	unsupp("append of a symbolic-length slice")
+	vals, complete := e.enumValues(s, b.Len, 8)
+	if !complete {
+		unsupp("append of a slice whose symbolic length has more than 8 feasible values")
+	}
+	if len(vals) == 0 {
+		s.Status = "infeasible"
+		return
+	}
+	// re-execute the append in each fork with the length pinned
+	for i, v := range vals {
+		st := s
+		if i > 0 {
+			st = s.Clone()
+		}
+		st.PC = append(st.PC, Eq(b.Len, I64(v)))
+		b2 := b
+		b2.Len = I64(v)
+		fr := st.top()
+		args := []Value{a, b2}
+		e.appendBuiltin(st, fr, x, args, []ssa.Value{x.Call.Args[0], x.Call.Args[1]})
+		if i > 0 {
+			e.Pending = append(e.Pending, st)
+		}
+	}
+	s.top()
+}
+
+// enumValues lists the values t can take on this path, up to k of them (model-guided).
+func (e *Engine) enumValues(s *State, t *Term, k int) ([]int, bool) {
+	if c, ok := cint(t); ok {
+		return []int{c}, true
+	}
+	var out []int
+	excl := True
+	for len(out) <= k {
+		pc := s.PC
+		m, ok := e.Solver.Model(pc, excl, nil, nil, t)
+		if !ok {
+			// no (further) model: complete if the exclusion is really unsat
+			if e.Solver.Check(pc, excl) == "unsat" {
+				sort.Ints(out)
+				return out, true
+			}
+			return out, false
+		}
+		u, ok := litToUint(m[fmt.Sprintf("eval:%d", t.ID)])
+		if !ok {
+			return out, false
+		}
+		c := BVUint(u, t.Sort.Width)
+		v, _ := cint(c)
+		out = append(out, v)
+		excl = And(excl, Not(Eq(t, c)))
+	}
+	sort.Ints(out)
+	return out, false
 }
 
 func (e *Engine) copyBuiltin(s *State, f *Frame, x *ssa.Call, args []Value) {
@@ -319,13 +375,13 @@ func (e *Engine) copyBuiltin(s *State, f *Frame, x *ssa.Call, args []Value) {
 	nc, conc := cint(n)
 	if !conc {
 		// fork over feasible concrete n (bounded case split)
-		vals := e.feasibleValues(s, n, 0, 256)
+		vals, complete := e.enumValues(s, n, 64)
+		if !complete {
+			unsupp("copy with symbolic length having more than 64 feasible values")
+		}
 		if len(vals) == 0 {
 			s.Status = "infeasible"
 			return
-		}
-		if len(vals) > 200 {
-			unsupp("copy with symbolic length having more than 200 feasible values")
 		}
 		for _, v := range vals[1:] {
 			o := s.Clone()
@@ -555,11 +611,11 @@ func (e *Engine) lookup(s *State, f *Frame, x *ssa.Lookup) {
 // ---- range ----
 
 type rangeIter struct {
-	Keys []Value
-	Vals []Value
-	Str  []*Term
+	Keys  []Value
+	Vals  []Value
+	Str   []*Term
 	Runes []rune
-	Offs []int
+	Offs  []int
 	IsStr bool
 }
 
